@@ -50,6 +50,7 @@ structure Tr where
   -- websocket
   conn : Nat := 0
   closeWait : Bool := false          -- DoClose waits for the pending batch to drain
+  wt : Bool := false                 -- a WebTransport session instead of a WebSocket connection
   -- both: the close timeout and the callback handed to Close (always OnClose("forced close") of a session)
   closeTimerDue : Option Nat := none
   closeFn : Option Nat := none
@@ -103,6 +104,7 @@ structure Conn where
   frames : List Msg := []
   ended : Option String := none
   endReported : Bool := false
+  wt : Bool := false
   deriving Repr, Inhabited
 
 structure Opts where
@@ -208,6 +210,10 @@ def sidBytes (k : Nat) : Bytes :=
   List.replicate 20 126 ++ (natDigits (10000 + k)).drop 1
 
 /-! ### transports -/
+
+/-- `Transport.Name()` -/
+def Tr.name (t : Tr) : String :=
+  if t.isPolling then "polling" else if t.wt then "webtransport" else "websocket"
 
 def supportsBinary (t : Tr) : Bool := !t.b64
 
@@ -634,7 +640,7 @@ def openAnnounce (w : World) (sid : Nat) (trName : String) (proto : Nat) : World
 /-- `NewSocket` … `onOpen`, registry, "connection" -/
 def openSession (w : World) (ti : Nat) (proto : Nat) : World :=
   let sid := w.socks.size
-  let trName := if (w.tr ti).isPolling then "polling" else "websocket"
+  let trName := (w.tr ti).name
   let w := { w with socks := w.socks.push { proto, tr := ti } }
   let w := w.setTr ti fun t => { t with role := .current sid, owner := sid }
   let w := w.setSock sid fun s => { s with rs := .open_ }
@@ -682,6 +688,15 @@ def hsWebsocket (w : World) (proto : Nat) (b64 : Bool) : World :=
     let ti := w.trs.size
     let w := { w with trs := w.trs.push { isPolling := false, proto, b64, conn := c, writable := true } }
     openSession w ti proto
+
+/-- `OnWebTransportSession`, first frame an open packet without data: a new session.
+    The revision is forced to 4; `Verify` is not consulted on this path. -/
+def hsWt (w : World) : World :=
+  let c := w.conns.size
+  let w := { w with conns := w.conns.push { wt := true } }
+  let ti := w.trs.size
+  let w := { w with trs := w.trs.push { isPolling := false, wt := true, proto := 4, b64 := false, conn := c, writable := true } }
+  openSession w ti 4
 
 /-- a request that names a session: `Verify` + dispatch -/
 def lookup (w : World) (sid : Nat) : Option Sock :=
@@ -778,6 +793,21 @@ def wsCandidate (w : World) (sid : Nat) (proto : Nat) (b64 : Bool) : World :=
     if s.upgrading ∨ s.upgraded then refuse w "close:1006:756e657870656374656420454f46" else
     let ti := w.trs.size
     let w := { w with trs := w.trs.push { isPolling := false, proto, b64, conn := c, writable := true, role := .candidate sid } }
+    w.setSock sid fun s => { s with upgrading := true, cand := some { tr := ti, timeoutDue := some (w.now + w.o.U) } }
+
+/-- `OnWebTransportSession`, first frame an open packet naming a session: an upgrade candidate;
+    every refusal is a plain close of the WebTransport session (no `connection_error`) -/
+def wtCandidate (w : World) (sid : Nat) : World :=
+  let c := w.conns.size
+  let w := { w with conns := w.conns.push { wt := true } }
+  let refuse (w : World) :=
+    w.setConn c fun x => { x with serverOpen := false, ended := some "closed" }
+  match lookup w sid with
+  | none => refuse w
+  | some s =>
+    if s.upgrading ∨ s.upgraded then refuse w else
+    let ti := w.trs.size
+    let w := { w with trs := w.trs.push { isPolling := false, wt := true, proto := 4, b64 := false, conn := c, writable := true, role := .candidate sid } }
     w.setSock sid fun s => { s with upgrading := true, cand := some { tr := ti, timeoutDue := some (w.now + w.o.U) } }
 
 def trOfConn (w : World) (c : Nat) : Option Nat :=
@@ -912,6 +942,8 @@ inductive Op where
   | post (sid : Nat) (binary declared : Bool) (body : Bytes) (viaJsonp : Bool)
   | abort (r : Nat)
   | wsCandidate (sid : Nat) (proto : Nat) (b64 : Bool)
+  | hsWt
+  | wtCandidate (sid : Nat)
   | frame (c : Nat) (m : Msg)
   | drop (c : Nat)
   | send (sid : Nat) (m : Msg) (compress wantCb : Bool) (pre : Option Msg)
@@ -932,6 +964,8 @@ def step (w : World) (op : Op) : World :=
   | .post sid binary declared body viaJsonp => postReq w sid binary declared body viaJsonp
   | .abort r => abortReq w r
   | .wsCandidate sid proto b64 => wsCandidate w sid proto b64
+  | .hsWt => hsWt w
+  | .wtCandidate sid => wtCandidate w sid
   | .frame c m =>
     let cn := w.conns.getD c default
     if (match cn.ended with | some how => how.startsWith "refused" | none => false) then w
